@@ -22,12 +22,16 @@ pub fn run(tier: Tier) -> i32 {
         run_inputs(&mut run, &b, NONTRIVIAL, &oracle);
     }
     crate::recipe_inputs::run_recipe_inputs(&mut run, &b, NONTRIVIAL, &oracle);
+    crate::big::run_big_part(&mut run, tier, "every public consumer must return");
     if tier == Tier::Thorough && !run.failed() {
         crate::fuzzleg::run_fuzz_leg(&mut run, FUZZ_RUNS, &oracle);
     }
     run.finish()
 }
 
-pub fn replay(_part: &str, j: &serde_json::Value) -> Verdict {
+pub fn replay(part: &str, j: &serde_json::Value) -> Verdict {
+    if part == "large-inputs" {
+        return crate::big::replay(inv::c03_pipeline, j);
+    }
     replay_input(j, &oracle)
 }
